@@ -5,6 +5,10 @@ Driver ops for the attribute area (C15, C16, merge part of C03): the model side 
   ahist <dicts> <kw> [ step… ]                      → r0 r1 …      r0 = ok <attrs> | err <kind>   (stops after an err r0)
         step := u <dicts> <kw> | s <str> <attrarg>     ri = ok <attrs> | err <kind> <attrs-unchanged>
   consolidate [ (d <dict> | c <node>)… ] <kw>       → ok <attrs> <nodes> <rebuilt==direct> <children identical> | err <kind>
+  consolidate_args [ (d <dict> | a <arg>)… ] <kw>   → ok <attrs> <args> <rebuilt==direct> <children identical> | err <kind>
+        the non-dict arguments are arbitrary Python values (`<arg>` of the child-list ops, C14): unsupported objects,
+        dicts / sets inside lists, None, numbers, nested sequences …; building the throw-away Tag raises exactly when
+        `TagList(*children)` does (`chTagchildsToTagnodes` on the tuple of children)
   attr_render <dicts> <kw>                          → ok <str> | err <kind>        (str(Tag("div", *dicts, **kw)))
   chist <ws> <attrs> [ step… ]                      → one answer per step
         step := ac <str> <bool> | rc <str> | hc <str> | as <attrarg> <bool>
@@ -63,6 +67,19 @@ def tagArg : P (TagArg Node) := do
   | "d" => .dict <$> listOf attrPair
   | "c" => .child <$> node
   | _ => throw s!"bad tag arg {t}"
+
+def tagArgA : P (TagArg Arg) := do
+  let t ← next
+  match t with
+  | "d" => .dict <$> listOf attrPair
+  | "a" => .child <$> arg
+  | _ => throw s!"bad tag arg {t}"
+
+/-- `TagList(*kids)` raises? (`_tagchilds_to_tagnodes` on the tuple of positional children, C14's model) -/
+def kidsCheck (kids : List Arg) : Except Err Unit :=
+  match chTagchildsToTagnodes (.tuple (Args.ofList kids)) with
+  | .ok _ => .ok ()
+  | .error e => .error e
 
 def cssVal : P CssVal := do
   let t ← next
@@ -146,6 +163,17 @@ def attrsOps : OpTable
         | .ok (a1, k1), .ok (a2, k2) => a1 == a2 && (Nodes.ofList k1).beq (Nodes.ofList k2)
         | _, _ => false
       pure ("ok " ++ encAttrs a ++ " " ++ encNodes (Nodes.ofList cs) ++ " " ++ encBool same ++ " T")
+  | "consolidate_args" => some do
+    let args ← listOf tagArgA; let kw ← listOf attrPair
+    match consolidate cfg kidsCheck args kw with
+    | .error e => pure ("err " ++ encErr e)
+    | .ok (a, cs) =>
+      let direct := tagInitSplit cfg kidsCheck args kw
+      let rebuilt := tagInitSplit cfg kidsCheck (.dict (asDictArg a) :: cs.map .child) []
+      let same := match direct, rebuilt with
+        | .ok (a1, k1), .ok (a2, k2) => a1 == a2 && (Args.ofList k1).beq (Args.ofList k2)
+        | _, _ => false
+      pure ("ok " ++ encAttrs a ++ " " ++ encArgs (Args.ofList cs) ++ " " ++ encBool same ++ " T")
   | "attr_render" => some do
     let ds ← listOf (listOf attrPair); let kw ← listOf attrPair
     match tagInitAttrs cfg ds kw with
